@@ -72,7 +72,11 @@ def compare(suite, prefix, fields):
         if o["hist"] in bad:
             continue
         nlines += 1
-        d = [x for x in suite.compare_line(o, m) if x[0] in fields]
+        raw = suite.compare_line(o, m)
+        if raw and raw[0][0] == "stop-history":
+            bad.add(o["hist"])
+            continue
+        d = [x for x in raw if x[0] in fields]
         if d:
             bad.add(o["hist"])
             f, a, b = d[0]
